@@ -25,12 +25,12 @@ ASSUMPTIONS = [
 CORE_ALLOWED = (
     "kwargs_param", "multiline_summary", "float_default", "negative_int", "zero_int", "bool_false", "none_default",
     "prose_trailing_stop", "required_bool", "no_params", "str_with_space", "code_default", "int_under_nonscalar_type",
-    "default_words", "prose_punct", "optional_prose", "union_with_str",
+    "default_words", "prose_punct", "optional_prose", "union_with_str", "str_with_dot", "code_default_dot",
 )
 # shapes of open findings: excluded from the core by construction, each probed by its own frontier budget
 FRONTIER_KNOBS = irprops.frontier_knobs((
-    "untyped_param", "undocumented_param", "default_without_prose", "bare_param", "str_with_dot", "str_with_space",
-    "empty_str", "str_with_quote", "code_default_dot",
+    "untyped_param", "undocumented_param", "default_without_prose", "bare_param", "str_with_space",
+    "empty_str", "str_with_quote",
     "nodefault_after_default", "returns", "returns_default", "returns_untyped",
     "returns_undocumented", "returns_only", "multiline_prose", "foreign_tokens",
 ))
